@@ -104,7 +104,7 @@ Sub-checks (alphabet / oracle)
             The sub-checks margin2 (collapsed sides of the 2-d rectangles) and args (empty rectangles and a lower end -inf
             in every form of the corners) enumerate such rectangles too.
  margin1    margin(F, [i], d)(u) == u for every i, every finite u of the (wide) alphabet including 0 and of the extreme
-            letters (the operator itself evaluates F at -inf / +inf in the other coordinates: the only place -inf occurs);
+            letters (the operator itself evaluates F at -inf / +inf in the other coordinates; -inf also occurs as a lower end in `degenerate` / `args`);
             argument handed over as a list and as an array (as LevyCopulaModel.margin_tail_integral does).
  margin2    d = 3: the two-dimensional margins margin(F, [i, j], 3) (limits of 3-d rectangles whose third side is the whole
             line; this is where the margin operator takes the -inf limit) give a non-negative volume to every 2-d rectangle
@@ -155,7 +155,8 @@ Exact relations and tolerances (eps = 2^-52)
    fire on a correct implementation; points where tolD > 1e-2 |FD| are counted `fd_inconclusive` (never an alarm).
    Known defects are off by factors (|P| in {0.04 .. 125}, or a sign).
 
-Observed on the unchanged tree (triage in the builder's report): x_first_derivative returns sgn(prod u) times the plain
+Observed on the PINNED tree when the module was first built (triage in the builder's report; the sign and the nan have
+since been repaired by fix: commits, the missing factor is the open known finding): x_first_derivative returned sgn(prod u) times the plain
 mixed derivative - no factor prod(u) (keys ...:equals-plain-mixed-derivative-not-times-product:*:prod>0) and the wrong sign
 on the orthants where the product is negative (keys ...:equals-minus-plain-mixed-derivative-...:prod<0; this one makes
 MarkovChainSDE._integral_zz, its only caller, integrate |x y| instead of x y).  inverse_conditional_distribution(eps > 0,
